@@ -1,4 +1,5 @@
 """C17 Connection roles and diffusion modes gate what is accepted (S1, RP + muxer/engine events)."""
+import concurrent.futures
 import json
 import os
 
@@ -81,18 +82,23 @@ def run(chk, replay=None):
     chk.assumptions = [
         "expectations (which version carries which protocol, duplex only from NtN v10) are my transcription of the network specification / CIP-0137",
         "the Leios trio (ids 18-20, CIP-0164 prototype, no version assigned) is left open on node-to-node connections ('any'), but only in the negotiated roles; a refusing peer-sharing instance is allowed where peer sharing was not negotiated, its callback must not run",
-        "WithKeepAlive is a case dimension (keys of the rows with the option off end in :lka=0 before the segment); with the option off the keep-alive initiator may or may not be registered (the application's own choice), everything else is demanded as with the option on; quick tier: option off on node-to-node rows only (node-to-client/DMQ rows keep it on, where it must be without effect), thorough: every row both ways",
+        "WithKeepAlive is a case dimension (keys of the rows with the option off end in :lka=0 before the segment); with the option off the keep-alive initiator may or may not be registered (the application's own choice), everything else is demanded as with the option on; every row is run with the option on (on node-to-client/DMQ it must be without effect); with the option off the quick tier runs the node-to-node rows that have peer sharing off on both sides, the thorough tier every row",
         "WithDelayProtocolStart/WithDelayMuxerStart are not used",
         "which error closes the connection is not compared (a gate-case rejected because no receiver is registered counts as closed with an error); an error for a merely unroutable segment is recorded, not required",
         "one inbound segment per connection; the peer's diffusion / peer-sharing flags exist only in node-to-node version data, so node-to-client and DMQ rows have none",
     ]
-    drv = vlib.go_build("c17")
     if replay:
+        drv = vlib.go_build("c17")
         vlib.run_driver(chk, drv, ["-replay", replay], timeout=600)
         return
     cfg = "Connection.cfg" if chk.tier == "quick" else "ConnectionThorough.cfg"
-    r = vlib.run_tlc("net/Connection", cfg=cfg, timeout=500, workers=4, deadlock=False,
-                     coverage=(chk.tier != "quick"))
+    # the driver is built while TLC runs
+    with concurrent.futures.ThreadPoolExecutor(max_workers=2) as ex:
+        fb = ex.submit(vlib.go_build, "c17")
+        ft = ex.submit(vlib.run_tlc, "net/Connection", cfg=cfg, timeout=500, workers=4, deadlock=False,
+                       coverage=(chk.tier != "quick"))
+        r = ft.result()
+        drv = fb.result()
     vlib.tlc_must_pass(r, "Connection/" + cfg)
     chk.add_tlc(cfg, r)
     if r.coverage_zero:
@@ -100,7 +106,7 @@ def run(chk, replay=None):
     cases = os.path.join(r.dir, "cases.ndjson")
     if not os.path.exists(cases) or os.path.getsize(cases) == 0:
         raise vlib.MachineryError("Connection/%s emitted no cases" % cfg)
-    vlib.run_driver(chk, drv, [cases], timeout=(600 if chk.tier == "quick" else 2400))
+    vlib.run_driver(chk, drv, [cases], timeout=(600 if chk.tier == "quick" else 3600))
     if chk.tier != "quick":
         legacy_selftest(chk)
         binding_selftest(chk, drv, cases)
